@@ -25,7 +25,7 @@ MANIFEST = {
                  'inf/NaN; z3 + cvc5 (nonlinear); native replay; random-grid stand-in',
 }
 UNITS = ['unit_probability', 'unit_free_energy', 'unit_sum_lemmas']
-BOUNDED = ['bounded_free_energy']
+BOUNDED = ['bounded_free_energy', 'bounded_purity']
 META = {
     'clauses': {'C09.prob': 'P (pointwise p = data/total, p >= 0; sum = 1 by the linearity lemma)', 'C09.F': 'P', 'C09.mono': 'P', 'C09.unvisited': 'P',
                 'C09.const': 'P (value of the installed constant)', 'C09.graph': 'P for DBL_MAX >= thresholds; node loop B'},
@@ -326,3 +326,10 @@ def bounded_free_energy(tier, seed):
         if r['reproduced']:
             st.violation('free_energy', r['detail'], 'verif.props.c09:replay_free_energy', inp)
     return st.result()
+
+
+# generic purity stand-in (arguments unchanged, second call equal, fresh call equal) over this property's API calls
+from verif.native.purity import make_bounded as _make_purity  # noqa: E402
+from verif.props.purity_reg import REG as _PURITY_REG  # noqa: E402
+PURITY = _PURITY_REG['C09']
+bounded_purity = _make_purity('C09', PURITY)
